@@ -32,6 +32,11 @@ CHECKS = {
         text="Three TLA+ modules: the abstract automaton of bsdiff control series (absolute old offset, add = byte-wise sum mod 256, copy, seek, single final end-of-series, resume from a saved offset), the chunked LRU read cache (model-checked; one witness walk per transition replayed on the real lrufile at model scale comparing bytes, EOF, offsets and hit/miss counters) and the dispatcher/worker/collector pipeline of the scanner (order, no wedge, completion under fairness). The real bsdiff.Do runs on every small (old,new) x partitions and on random large pairs; TLC accepts or rejects each real series with the automaton (verbatim at small scale, digest facts at large scale) and compares the real applier's offset trajectory, output and resumptions.",
         note="SHA-256 digests stand for byte equality at large scale; suffix sorter and LRU library enter only through real executions; a crash of the real differ kills the driver and is reported from a marker file.",
         technique="TLA+ model checking (TLC) + model walks replayed on the real cache + trace validation of real control series against the TLA+ automaton"),
+    "C01": dict(
+        level="model_checking", ref="DESIGN.md §4 C01",
+        text="TLA+ model of the patcher's per-file procedure with the fresh bowl, model-checked over every valid rsync op stream (anything the abstract op-stream layer accepts, not only what today's differ emits) for all small (olds,new): whole-file-op detection, range sizing from the old container, Prepare/truncate. Generated build pairs (size classes around block multiples, renames, duplications, aligned prefixes/suffixes, shared blocks, edits, inserts, deletes, swaps, weak-hash twins, > 4 MiB runs, empty files, symlinks, empty dirs) x compression settings go through the real WritePatch, an independent patch decoder with digest facts, and the real patcher + fresh bowl; TLC evaluates framing, reconstruction and entry-by-entry tree equality on every recorded application.",
+        note="SHA-256 digests stand for byte equality; modes are not compared; pairs are sampled from VERIF_SEED (the quantifier is infinite).",
+        technique="TLA+ model checking (TLC) + trace validation of real diff/apply executions against the TLA+ patch-stream property"),
 }
 
 NOT_YET = "check not built yet in this round (planned: DESIGN.md §4); not a claim that the technique cannot apply"
